@@ -53,7 +53,7 @@ func TestC12Shutdown(t *testing.T) {
 	rapid.Check(t, func(rt *rapid.T) {
 		baseGo := runtime.NumGoroutine()
 		cfg := baseConfig()
-		h := newH(rt, "C12", sim.Options{Config: cfg})
+		h := newH(rt, "C12", asVolatileSession(rt, sim.Options{Config: cfg}))
 		state := rapid.SampledFrom([]string{"never-connected", "dialing", "awaiting-connack", "resending", "online-idle", "online-holding",
 			"writers-parked", "offline-after-failed-connect", "reconnect-pending", "already-closed", "remote-closed-unnoticed", "next-write-fails"}).Draw(rt, "state")
 		h.Act("state %s", state)
